@@ -1,7 +1,9 @@
 """R27: a member that is freed while its object lives on does not keep the freed pointer.
 
-Instance: `free(X->f)` (any member path rooted in a pointer parameter X) in a function that does not
-release X itself, for a member f that the destructor of the object (a function that frees X->f and X) releases. Rule: on every path from the free to the function's exit the member is assigned again
+Instance: `free(X->f)` / `close(X->f)` / `fclose(X->f)` / `munmap(X->f, ..)` (any member path rooted in a
+pointer parameter or local X) outside the destructor, for a member f that the destructor of the object (a
+function that releases X->f the same way and frees X) releases. A path on which X itself is freed or handed to a
+destructor is not an instance. Rule: on every path from the free to the function's exit the member is assigned again
 (NULL or a new block). When the function is a static helper, a caller that assigns the member after
 every call of the helper discharges it as well. A violation additionally needs the second release to
 exist: that is the destructor. Members of objects without a heap destructor (stack objects torn down by a
@@ -22,20 +24,24 @@ def _member_key(a):
     return (a.get("rec"), a.name) if a.k == "MemberExpr" else None
 
 
+RELEASE = ("free", "close", "fclose", "munmap")
+
+
 def free_sites(P, fns):
-    """[(fn, call, member expr, root DeclRefExpr)] for free(member path of a pointer parameter)."""
+    """[(fn, call, member expr, root DeclRefExpr)] for free / close / fclose / munmap of a member path rooted in a
+    pointer parameter or pointer local."""
     out = []
     for fn in fns:
         if fn.body is None or fn.cfg is None:
             continue
-        for c in fn.calls("free"):
+        for c in fn.calls(*RELEASE):
             if not c.args():
                 continue
             a = c.args()[0].strip_casts()
             if a is None or a.k != "MemberExpr":
                 continue
             r = _root(a)
-            if r is None or r.k != "DeclRefExpr" or r.get("dk") != "param" or "*" not in (r.t or ""):
+            if r is None or r.k != "DeclRefExpr" or r.get("dk") not in ("param", "local") or "*" not in (r.t or ""):
                 continue
             out.append((fn, c, a, r))
     return out
@@ -54,9 +60,15 @@ def _releases_root(P, fn, r):
     return False
 
 
-def _unassigned_exit(fn, call, text):
+def _unassigned_exit(fn, call, text, root=None, destructors=()):
     def reassigned(e):
-        return is_assign(e) and e.op == "=" and src(e.c[0].strip()) == text
+        if is_assign(e) and e.op == "=" and src(e.c[0].strip()) == text:
+            return True
+        # the object itself is released on this path: nothing keeps the stale member
+        if root is not None and e.k == "CallExpr" and (e.callee == "free" or e.callee in destructors) and e.args():
+            x = e.args()[0].strip_casts()
+            return x is not None and x.k == "DeclRefExpr" and x.get("d") == root.get("d")
+        return False
     w = fn.cfg.where()
     if call.i not in w:
         return None
@@ -68,21 +80,22 @@ def check(ctx, fns, rule="R27.stale-member", key_prefix="stale-member"):
     P = ctx.P
     sites = free_sites(P, fns)
     # who frees which member anywhere in the library
-    freed_by = {}       # member -> destructors (functions that free the member and the object itself)
+    freed_by = {}       # (member, release function) -> destructors (functions that release the member and the object itself)
     for fn, c, a, r in free_sites(P, [f for f in P.functions.values() if P.rel(f.file).startswith("src/")]):
-        if _releases_root(P, fn, r):
-            freed_by.setdefault(_member_key(a), set()).add(fn.name)
+        if _releases_root(P, fn, r) and r.get("dk") == "param":
+            freed_by.setdefault(_member_key(a) + (c.callee,), set()).add(fn.name)
+    alldestr = set(x for v in freed_by.values() for x in v)
     n = 0
     per = {}
     for fn, c, a, r in sites:
-        if _releases_root(P, fn, r) or not freed_by.get(_member_key(a)):
+        if not freed_by.get(_member_key(a) + (c.callee,)) or fn.name in freed_by.get(_member_key(a) + (c.callee,)):
             continue        # the destructor itself, or a member no destructor of a heap object releases
         n += 1
         text = src(a)
         idx = per[(fn.key(), text)] = per.get((fn.key(), text), -1) + 1
         key = "%s|%s:%s|%s#%d" % (key_prefix, P.rel(fn.file), fn.name, text, idx)
-        what = "after free(%s) in %s the member is assigned again before the function returns (the object lives on)" % (text, fn.name)
-        path = _unassigned_exit(fn, c, text)
+        what = "after %s(%s) in %s the member is assigned again before the function returns (the object lives on)" % (c.callee, text, fn.name)
+        path = _unassigned_exit(fn, c, text, r, alldestr)
         if path is None:
             ctx.ok(rule, key, P.where(c), what)
             continue
@@ -104,10 +117,10 @@ def check(ctx, fns, rule="R27.stale-member", key_prefix="stale-member"):
                 if allok:
                     ctx.ok(rule, key, P.where(c), what, "every caller assigns the member after the call")
                     continue
-        again = sorted(freed_by.get(_member_key(a), set()))
+        again = sorted(freed_by.get(_member_key(a) + (c.callee,), set()))
         how = "path to the exit without a store to %s: %s" % (text, describe_path(fn, fn.cfg, path))
         if again:
-            ctx.bad(rule, key, P.where(c), what, how + "; the member is freed again by %s" % ", ".join(again[:4]),
+            ctx.bad(rule, key, P.where(c), what, how + "; the member is released again by %s" % ", ".join(again[:4]),
                     witness={"blocks": list(path)[-40:]})
         else:
             ctx.inconclusive(rule, key, P.where(c), what, how)
